@@ -21,6 +21,10 @@ def plan(ctx):
             coqk = k < n_coq
             length = 14 if coqk else ctx.rng.choice([40, 40, 80, 150, 300])
             jobs.append((ctx.rng.randrange(10**9), ctx.rng.randint(5, 10), length, coqk))
+    # large-magnitude stream: every data point's log grid shifted by a big constant, so |log_r| reaches thousands (as with
+    # thousands of mutations) while each vector keeps a narrow range; compared with the rebuild only
+    for k in range(24 if ctx.quick else 120):
+        jobs.append((ctx.rng.randrange(10**9), ctx.rng.randint(6, 9), ctx.rng.choice([20, 40]), False, -float(ctx.rng.choice([800, 1500, 2500]))))
     return jobs
 
 
@@ -38,7 +42,7 @@ def report_history_failures(ctx, results, prop):
         kind, step, what = f
         hist = r.get("hist") or []
         op = hist[step][0] if 0 <= step < len(hist) else "?"
-        replay = {"kind": "history", "seed": r["seed"], "n_points": r["n_points"], "start_spec": r["spec"], "history": hist, "failing_step": step,
+        replay = {"kind": "history", "seed": r["seed"], "n_points": r["n_points"], "start_spec": r["spec"], "history": hist, "failing_step": step, "offset": r.get("offset", 0.0),
                   "values": r.get("vals"), "how": "pv.edits.make_case(seed, n_points, length) regenerates the data; pv.edits.replay(spec, history, data)"}
         if kind == "EXC":
             ctx.fail("%s:%s:exception" % (prop, op), "an edit of the sampler grammar raised: %s" % what.splitlines()[0], replay)
@@ -138,11 +142,11 @@ def replay_doc(ctx, doc, prop):
     """Re-run exactly the recorded case on the implementation (framework: ./check Cxx --replay file)."""
     rp = doc.get("replay", {})
     if rp.get("kind") == "history" or "history" in rp:
-        case = edits.make_case(rp["seed"], rp["n_points"], 0)
+        case = edits.make_case(rp["seed"], rp["n_points"], 0, offset=rp.get("offset", 0.0) or 0.0)
         spec, hist = _tuplify(rp["start_spec"]), [_tuplify(e) for e in rp["history"]]
         _, f = edits.replay(spec, hist, case["data"])
         ctx.case(key="replay", n=len(hist), sample={"replay": rp, "outcome": f})
-        r = {"seed": rp["seed"], "n_points": rp["n_points"], "spec": spec, "hist": hist, "failure": f, "length": len(hist), "ops": {}, "ns": case["ns"], "final": None}
+        r = {"seed": rp["seed"], "n_points": rp["n_points"], "spec": spec, "hist": hist, "failure": f, "length": len(hist), "ops": {}, "ns": case["ns"], "final": None, "offset": rp.get("offset", 0.0)}
         report_history_failures(ctx, [r], prop)
         ctx.log("replayed history: %s" % (f,))
     elif "sampler_job_args" in rp:
